@@ -14,6 +14,7 @@ suite is unchanged with it (147 passed, the 24 SoftHSM errors); demo.py fails wi
 from __future__ import annotations
 
 import json
+import os
 import re
 import shutil
 import subprocess
@@ -102,7 +103,7 @@ def run(d: Path, props: list[str] | None, tier: str, worktree: bool = False) -> 
     target = REPO
     env = None
     if worktree:
-        target = Path(f"/tmp/seedrun_{d.name}")
+        target = Path(f"/tmp/seedrun_{d.name}_{os.getpid()}")  # unique: several people may run the same change
         if target.exists():
             sh(["git", "-C", str(REPO), "worktree", "remove", "--force", str(target)])
         rc, out = sh(["git", "-C", str(REPO), "worktree", "add", "-q", "--detach", str(target), "HEAD"])
